@@ -29,8 +29,8 @@ LEVEL_TEXT = (
     "the host AST: gate trace, measurement placement, controller arrays/registers and every host handle after each flush.")
 LEVEL_NOTE = (
     "partial: full compiler-correctness composition not proved (see Props/C05.lean list); assembling (labels -> "
-    "addresses, literals -> scratch registers) is C03's theorem and is assumed, not re-proved; open findings F29 "
-    "(host handles keep stale values across flushes) and F31 (new_register() registers clobbered by a later "
+    "addresses, literals -> scratch registers) is C03's theorem and is assumed, not re-proved; open findings F41 "
+    "(host handles keep stale values across flushes) and F42 (new_register() registers clobbered by a later "
     "subroutine's scratch registers) are host-/assembler-level and outside the label-level model; shared-memory "
     "arrays alias the controller's arrays (F25).")
 TECHNIQUE = ("Lean 4 proof (small-step label-level semantics, per-construct simulation lemmas for all operand values) "
@@ -139,17 +139,17 @@ def run(ctx):
     corpus = [
         ("F5", [{"k": "until", "n": 10, "body": [{"k": "qop", "g": [], "t": {"k": "new"}}],
                  "ef": {"f": {"a": 0, "i": 0}}, "ev": 0, "cl": []}, {"k": "flush"}], [1, 1, 0]),
-        ("F30a", [{"k": "arr", "len": 1, "init": [2]},
+        ("F43a", [{"k": "arr", "len": 1, "init": [2]},
                   {"k": "addf", "f": {"a": 0, "i": 0}, "o": {"f": {"a": 0, "i": 0}}, "m": 3}, {"k": "flush"}], []),
-        ("F30b", [{"k": "arr", "len": 2, "init": [-1, 0]},
+        ("F43b", [{"k": "arr", "len": 2, "init": [-1, 0]},
                   {"k": "until", "n": 3, "body": [{"k": "addr", "h": 0, "o": {"f": {"a": 0, "h": 0}}, "m": 2}],
                    "ef": {"h": 0}, "ev": 2, "cl": []}, {"k": "flush"}], []),
-        ("F29a", [{"k": "arr", "len": 1, "init": [5]},
+        ("F41a", [{"k": "arr", "len": 1, "init": [5]},
                   {"k": "if", "cb": False, "c": "ez", "a": {"f": {"a": 0, "i": 0}}, "b": {"v": 0}, "body": []},
                   {"k": "flush"}, {"k": "addf", "f": {"a": 0, "i": 0}, "o": {"v": 1}, "m": None}, {"k": "flush"}], []),
-        ("F29b", [{"k": "reg", "v": 7}, {"k": "flush"}, {"k": "addr", "h": 0, "o": {"v": 1}, "m": None},
+        ("F41b", [{"k": "reg", "v": 7}, {"k": "flush"}, {"k": "addr", "h": 0, "o": {"v": 1}, "m": None},
                   {"k": "flush"}], []),
-        ("F31", [{"k": "reg", "v": 1}, {"k": "flush"}, {"k": "arr", "len": 2, "init": [3, 3]}, {"k": "flush"}], []),
+        ("F42", [{"k": "reg", "v": 1}, {"k": "flush"}, {"k": "arr", "len": 2, "init": [3, 3]}, {"k": "flush"}], []),
     ]
     for name, prog, outs in corpus:
         correspond(prog, "corpus-" + name)
